@@ -28,7 +28,7 @@ EXTRA_MODULES = {
     "C05": ["Proofs.C05Render"],
     "C07": ["Proofs.C07", "Proofs.C07Lines"],
     "C08": ["Proofs.C08", "Proofs.C08Source"],
-    "C10": ["Proofs.C10"],
+    "C10": ["Proofs.C10", "Proofs.C10Source"],
     "C11": ["Proofs.C11"],
     "C12": ["Proofs.C12"],
     "C14": ["Proofs.C14"],
